@@ -141,14 +141,43 @@ def run_one(ch, cfg):
         e2["silence"] = "timeout"
     dcfg["post_exit_signer"] = e1
     dcfg["post_exit_uihb"] = e2
-    w = World(ch, device_cfg=dcfg, seed=seed)
+    arm = {}
+
+    def fault_fn(idx, apdu):
+        if arm.get("at") == idx:
+            arm["fired"] = arm["kind"]
+            return arm["kind"]
+        return None
+    w = World(ch, device_cfg=dcfg, seed=seed, fault_fn=fault_fn)
     dev = w.device
     w.bring_up()
     viol = []
     answered = 0
+    faulty_run = ch.draw(4, "link-faults") == 1
 
     def bad(sig, detail):
         viol.append((sig, detail))
+
+    def ask(obj):
+        """One query; in a 'faulty' run one query in four meets a link fault at one of its exchanges
+        (never the one right after a fault: that one repairs the connection).  -> (reply, exception,
+        excused) - excused: the fault fired and the query reported the device error, which is one of
+        the two things the property allows; data, if any is returned, is still held to the device's."""
+        arm.pop("fired", None)
+        arm.pop("at", None)
+        # (never while a repair is pending: a fault inside the repair's own onboarded check ends the
+        # manager by design; the flag is only read to place the fault, not to judge anything)
+        pending = getattr(w.protocol, "_comm_issue", False)
+        if faulty_run and not arm.get("cooldown") and not pending and ch.draw(4, "link-fault") == 1:
+            arm["at"] = w.link.index + ch.draw(10, "link-fault.at")
+            arm["kind"] = ["timeout_after", "timeout_before", "read_err_after", "read_err_before",
+                           "write_err"][ch.draw(5, "link-fault.kind")]
+        rep, exc = w.request(obj)
+        fired = arm.get("fired")
+        arm.pop("at", None)
+        arm["cooldown"] = bool(fired)
+        excused = bool(fired) and exc is None and isinstance(rep, dict) and rep.get("errorcode") == -905
+        return rep, exc, excused
 
     def query_round(S):
         nonlocal answered
@@ -156,8 +185,10 @@ def run_one(ch, cfg):
         params, hb, sr, ss = S["params"], S["hb"], S["sr"], S["ss"]
         # ---- getPubKey
         for p in ch.shuffle(PATHS, "paths"):
-            rep, exc = w.request({"command": "getPubKey", "keyId": p, "version": 5})
+            rep, exc, excused = ask({"command": "getPubKey", "keyId": p, "version": 5})
             want = dev.pubkey_for(path_bytes(p)[1:] if False else path_bytes(p)).hex()
+            if excused:
+                continue
             if exc is not None or not isinstance(rep, dict) or rep.get("errorcode") != 0:
                 bad("pubkey/failed", "%s -> %r %r" % (p, rep, exc))
             elif rep.get("pubKey") != want:
@@ -165,8 +196,10 @@ def run_one(ch, cfg):
             else:
                 answered += 1
         # ---- blockchainState
-        rep, exc = w.request({"command": "blockchainState", "version": 5})
-        if exc is not None or not isinstance(rep, dict) or rep.get("errorcode") != 0 \
+        rep, exc, excused = ask({"command": "blockchainState", "version": 5})
+        if excused:
+            pass
+        elif exc is not None or not isinstance(rep, dict) or rep.get("errorcode") != 0 \
                 or not isinstance(rep.get("state"), dict) \
                 or not isinstance(rep["state"].get("updating"), dict):
             bad("state/failed", "%r %r" % (rep, exc))
@@ -188,8 +221,10 @@ def run_one(ch, cfg):
                 if up.get(name) is not bool(flags[i]):
                     bad("state/flag", "%s=%r device flag bytes %s" % (name, up.get(name), flags.hex()))
         # ---- blockchainParameters
-        rep, exc = w.request({"command": "blockchainParameters", "version": 5})
-        if exc is not None or not isinstance(rep, dict) or rep.get("errorcode") != 0 \
+        rep, exc, excused = ask({"command": "blockchainParameters", "version": 5})
+        if excused:
+            pass
+        elif exc is not None or not isinstance(rep, dict) or rep.get("errorcode") != 0 \
                 or not isinstance(rep.get("parameters"), dict):
             bad("params/failed", "%r %r" % (rep, exc))
         else:
@@ -203,9 +238,11 @@ def run_one(ch, cfg):
                 bad("params/network", "%r device network %d" % (pr.get("network"), net))
         # ---- signerHeartbeat
         ud = ch.bytes(16, "ud.signer")
-        rep, exc = w.request({"command": "signerHeartbeat", "udValue": ud.hex(), "version": 5})
+        rep, exc, excused = ask({"command": "signerHeartbeat", "udValue": ud.hex(), "version": 5})
         h = hb["signer"]
-        if exc is not None or not isinstance(rep, dict) or rep.get("errorcode") != 0:
+        if excused:
+            pass
+        elif exc is not None or not isinstance(rep, dict) or rep.get("errorcode") != 0:
             bad("shb/failed", "%r %r" % (rep, exc))
         else:
             answered += 1
@@ -233,14 +270,20 @@ def run_one(ch, cfg):
         dev.state, dev.params, dev.hb = S["state"], S["params"], S["hb"]
         if w.link.open_handle is not None:
             w.link.open_handle.opened = False
+        repair_pending = getattr(w.protocol, "_comm_issue", False)
         rep, exc = w.request({"command": "blockchainState", "version": 5})
-        if exc is not None or not isinstance(rep, dict) or rep.get("errorcode") != -905:
+        if repair_pending and exc is None and isinstance(rep, dict) and rep.get("errorcode") == 0:
+            pass          # a repair was already due (injected link failure): this request reconnected
+        elif exc is not None or not isinstance(rep, dict) or rep.get("errorcode") != -905:
             bad("swap/first-request", "after the device swap the first request answered %r %r"
                 % (rep, exc))
         query_round(S)
     hb, ur, us = S["hb"], S["ur"], S["us"]
     dclass, flags, net, sshape, ushape = S["dclass"], S["flags"], S["net"], S["sshape"], S["ushape"]
-    # ---- uiHeartbeat walk
+    # ---- uiHeartbeat walk (starts from a healthy connection: a repair still due after an injected
+    # link failure is carried out by one more query first)
+    if getattr(w.protocol, "_comm_issue", False):
+        w.request({"command": "getPubKey", "keyId": PATHS[0], "version": 5})
     if walk == "start-in-uihb":
         dev.mode = L.MODE_UI_HEARTBEAT
     if walk == "mode-byte-ff":
